@@ -184,6 +184,27 @@ impl Val for Sn {
         Sn(std::cell::Cell::new((mixf(seed, 34) % 13) as i64))
     }
 }
+/// `Send + Sync`, move-only twin of `Ns` / `Sn` (used by control programs).
+pub struct Sy(pub i64);
+impl Debug for Sy {
+    fn fmt(&self, f: &mut std::fmt::Formatter<'_>) -> std::fmt::Result {
+        // prints (and hashes, and is built) like the value it stands in for, so that results stay comparable
+        write!(f, "Ns({})", self.0)
+    }
+}
+impl Default for Sy {
+    fn default() -> Self {
+        Sy(0)
+    }
+}
+impl Val for Sy {
+    fn hashv(&self) -> u64 {
+        mixf(self.0 as u64, 26)
+    }
+    fn build(seed: u64) -> Self {
+        Sy((mixf(seed, 27) % 13) as i64)
+    }
+}
 /// A move-only value (`Send`, not `Clone`).
 pub struct Mv(pub i64);
 impl Debug for Mv {
@@ -217,6 +238,20 @@ pub fn rd(id: u32) -> impl Fn(&i64) -> i64 + Copy + Send + Sync + 'static {
     move |x: &i64| {
         call(id, mixf(*x as u64, 32));
         *x
+    }
+}
+
+/// owned twins of `rd` / `inc_mut` (control programs that do not borrow)
+pub fn rdo(id: u32) -> impl Fn(i64) -> i64 + Copy + Send + Sync + 'static {
+    move |x: i64| {
+        call(id, mixf(x as u64, 32));
+        x
+    }
+}
+pub fn inco(id: u32) -> impl Fn(i64) -> i64 + Copy + Send + Sync + 'static {
+    move |x: i64| {
+        call(id, mixf(x as u64, 30));
+        x.wrapping_add(1)
     }
 }
 
@@ -386,6 +421,11 @@ pub struct ChainCase {
     /// a try-async macro with several branches: when a branch fails its siblings may never be polled,
     /// so only the result is compared for failing inputs
     pub short_circuit: bool,
+    /// control: the same program without the feature the property is about (no `let` names, the
+    /// plain macro of the class, Send twins of the values, nested invocations written as plain chains,
+    /// captures unwrapped). A difference is attributed to the property only if the control agrees
+    /// with the documented chain.
+    pub ctl: Option<fn() -> String>,
 }
 
 struct Side {
@@ -413,42 +453,20 @@ fn per_branch(evs: &[(u32, K, u64)]) -> BTreeMap<u32, Vec<(u32, K, u64)>> {
     m
 }
 
-pub fn main(cases: &[ChainCase]) {
-    let seed0: u64 = std::env::var("JV_SEED").ok().and_then(|s| s.parse().ok()).unwrap_or(0);
-    let n_inputs: u64 = std::env::var("JV_BUDGET").ok().and_then(|s| s.parse().ok()).unwrap_or(64);
-    let only: Option<usize> = std::env::var("JV_ONLY").ok().and_then(|s| s.parse().ok());
-    let mode = std::env::var("JV_MODE").unwrap_or_else(|_| "C01".to_string());
-    if std::env::var("JV_VERBOSE").is_err() {
-        std::panic::set_hook(Box::new(|_| {}));
-    }
-    for c in cases {
-        if only.map(|o| o != c.idx).unwrap_or(false) {
-            continue;
-        }
-        let mut runs = 0u64;
-        let mut nontrivial = 0u64;
-        let mut violations: Vec<Value> = Vec::new();
-        let mut samples: Vec<Value> = Vec::new();
-        let mut classes: BTreeMap<String, u64> = BTreeMap::new();
-        for k in 0..n_inputs {
-            // inputs: a fixed boundary set first (small seeds), then seeds derived from the run seed
-            let s = if k < 8 { k } else { mixf(seed0 ^ ((c.idx as u64) << 16), k as u32) };
-            let rside = run_side(c.refn, s);
-            let mside = run_side(c.mac, s);
-            let (rr, re) = (rside.result.clone(), rside.evs.clone());
-            let (mr, me) = (mside.result.clone(), mside.evs.clone());
-            runs += 1;
-            let calls = |v: &[(u32, K, u64)]| -> Vec<(u32, K, u64)> { v.iter().copied().filter(|e| e.1 == K::Call).collect() };
-            let caps = |v: &[(u32, K, u64)]| -> Vec<(u32, K, u64)> { v.iter().copied().filter(|e| e.1 == K::Cap).collect() };
-            let multiset_differs = || {
-                let mut a: Vec<(u32, K, u64)> = re.clone();
-                let mut b: Vec<(u32, K, u64)> = me.clone();
-                a.sort();
-                b.sort();
-                a != b
-            };
-            let mut detail: Option<String> = None;
-            match mode.as_str() {
+fn compare(mode: &str, c: &ChainCase, rside: &Side, mside: &Side) -> Option<String> {
+    let (rr, re) = (rside.result.clone(), rside.evs.clone());
+    let (mr, me) = (mside.result.clone(), mside.evs.clone());
+    let calls = |v: &[(u32, K, u64)]| -> Vec<(u32, K, u64)> { v.iter().copied().filter(|e| e.1 == K::Call).collect() };
+    let caps = |v: &[(u32, K, u64)]| -> Vec<(u32, K, u64)> { v.iter().copied().filter(|e| e.1 == K::Cap).collect() };
+    let multiset_differs = || {
+        let mut a: Vec<(u32, K, u64)> = re.clone();
+        let mut b: Vec<(u32, K, u64)> = me.clone();
+        a.sort();
+        b.sort();
+        a != b
+    };
+    let mut detail: Option<String> = None;
+    match mode {
                 // C10: every expression evaluated exactly as often as in the documented chain; values moved, never cloned
                 "C10" | "C11" if c.short_circuit && rr.as_ref().map(|s| s.starts_with("Err(")).unwrap_or(false) => {}
                 "C10" => {
@@ -479,8 +497,52 @@ pub fn main(cases: &[ChainCase]) {
                     } else if calls(&re) != calls(&me) {
                         detail = Some(format!("callback trace differs: macro {:?}, documented chain {:?}", calls(&me), calls(&re)));
                     }
-                    if detail.is_none() && !(c.short_circuit && failed) && multiset_differs() {
+                    if detail.is_none() && mode != "CTL" && !(c.short_circuit && failed) && multiset_differs() {
                         detail = Some(format!("event multiset differs: macro {:?}, documented chain {:?}", me, re));
+                    }
+                }
+    }
+    detail
+}
+
+pub fn main(cases: &[ChainCase]) {
+    let seed0: u64 = std::env::var("JV_SEED").ok().and_then(|s| s.parse().ok()).unwrap_or(0);
+    let n_inputs: u64 = std::env::var("JV_BUDGET").ok().and_then(|s| s.parse().ok()).unwrap_or(64);
+    let only: Option<usize> = std::env::var("JV_ONLY").ok().and_then(|s| s.parse().ok());
+    let mode = std::env::var("JV_MODE").unwrap_or_else(|_| "C01".to_string());
+    if std::env::var("JV_VERBOSE").is_err() {
+        std::panic::set_hook(Box::new(|_| {}));
+    }
+    for c in cases {
+        if only.map(|o| o != c.idx).unwrap_or(false) {
+            continue;
+        }
+        let mut runs = 0u64;
+        let mut nontrivial = 0u64;
+        let mut violations: Vec<Value> = Vec::new();
+        let mut samples: Vec<Value> = Vec::new();
+        let mut classes: BTreeMap<String, u64> = BTreeMap::new();
+        for k in 0..n_inputs {
+            // inputs: a fixed boundary set first (small seeds), then seeds derived from the run seed
+            let s = if k < 8 { k } else { mixf(seed0 ^ ((c.idx as u64) << 16), k as u32) };
+            let rside = run_side(c.refn, s);
+            let mside = run_side(c.mac, s);
+            let re = rside.evs.clone();
+            let rr = rside.result.clone();
+            runs += 1;
+            let calls = |v: &[(u32, K, u64)]| -> Vec<(u32, K, u64)> { v.iter().copied().filter(|e| e.1 == K::Call).collect() };
+            let caps = |v: &[(u32, K, u64)]| -> Vec<(u32, K, u64)> { v.iter().copied().filter(|e| e.1 == K::Cap).collect() };
+            let mut detail: Option<String> = compare(&mode, c, &rside, &mside);
+            if detail.is_some() {
+                if let Some(ctl) = c.ctl {
+                    let cside = run_side(ctl, s);
+                    // (the control of C11 has no captures: judge it on result and callback trace)
+                    let ctl_mode = if mode == "C11" { "CTL" } else { mode.as_str() };
+                    if compare(ctl_mode, c, &rside, &cside).is_some() {
+                        // the control disagrees with the documented chain as well: whatever is wrong is
+                        // not about this property's feature
+                        *classes.entry("difference also in the control: attributed elsewhere".to_string()).or_default() += 1;
+                        detail = None;
                     }
                 }
             }
